@@ -1,0 +1,10 @@
+//! Verification hooks for C19 (feature `verif`): public view of the crate-private `BlockPool`
+//! and a setter for the worker-ordinal thread-local that `BlockPool::push` reads.  No behaviour
+//! of their own.
+
+pub use crate::util::heap::blockpageresource::BlockPool;
+
+/// Make the calling thread look like GC worker `ordinal` to `current_worker_ordinal()`.
+pub fn set_current_worker_ordinal(ordinal: usize) {
+    crate::scheduler::verif_set_worker_ordinal(ordinal)
+}
